@@ -16,11 +16,16 @@ CLAIMED = {
                   "against a sequential reference model",
         text="Seeded search over interleavings of the per-file tasks of "
              "map/imap/collect/icollect/align under fake thread/process pools "
-             "(1-4 workers, 1-8 files, bundles, files= vs period selection) "
-             "with failing readers/functions; every run is compared with the "
-             "sequential program, exactly-once read counts, the imap in-flight "
-             "bound, exception and warning rules. A clean batch is evidence, "
-             "not proof: schedules are sampled, not enumerated.",
+             "(1-8 workers, 1-8 files, bundles, files= vs period selection, "
+             "plain and gzip-compressed files, optional output fileset written "
+             "by the workers on a scheduling file system) with failing "
+             "readers/functions; every run is compared with the sequential "
+             "program, exactly-once read counts, the imap in-flight bound, "
+             "exception and warning rules, the files of the output fileset and "
+             "an empty temp directory. A quarter of the runs aim at one "
+             "tape-drawn completion order of the per-file tasks (all orders of "
+             "<= 5 tasks in the quick tier, of <= 6 in the thorough tier). A "
+             "clean batch is evidence, not proof: schedules are sampled.",
         note="Trusted: the pool model in sim/executors.py (FIFO start, "
              "<= max_workers running, stdlib Executor.map semantics, pickle "
              "boundary for process pools); pre-emption only at pool operations "
@@ -60,8 +65,11 @@ CLAIMED = {
              "restarted FileSet must see byte-for-byte the old or the new "
              "document and load it without warning; the same steps are also "
              "failed with an OSError instead of a crash, and one corruption "
-             "kind truncates the document at every byte offset. Crash points "
-             "are enumerated exhaustively per history; histories are sampled.",
+             "kind truncates the document at every byte offset. The handler's "
+             "get_info can fail once (EIO) with the search repeated, and the "
+             "cache file's mtime is a harness-owned coarse clock (two versions "
+             "within one tick carry the same stamp). Crash points are "
+             "enumerated exhaustively per history; histories are sampled.",
         note="Crash = process death (completed syscalls persist, rename atomic, "
              "un-flushed user-space buffer lost); power-failure reordering is "
              "not modelled. A missing cache file needs no warning (documented "
@@ -97,20 +105,26 @@ CLAIMED = {
                   "model of the store",
         text="Histories of write/overwrite/read/collect/find/move/copy/delete/"
              "dry-run on real FileSets (pickle handler with read_args/"
-             "write_args/post_reader, gz/bz2/zip/xz suffixes, CSV, flat "
-             "NetCDF4) with target templates that change the directory layout; "
+             "write_args/post_reader, gz/bz2/zip/xz suffixes, CSV, NetCDF4 "
+             "with a catalogue of data sets: all dtypes, NaN/inf/NaT, packed "
+             "and time encodings, attributes, scalars, strings, pseudo groups, "
+             "empty dimensions - compared identical() and dtype-exact) with "
+             "target templates that change the directory layout; "
              "after every operation the directory listing, the bytes of "
              "untouched files and the content read back through the owning "
              "fileset are compared with a reference model that names files "
              "with the harness's own formatter; the file system seam adds a "
              "scheduling point before every isdir/makedirs/copy/move and the "
              "handlers contain yield points, so concurrent writers really "
-             "overlap. Histories and schedules are sampled.",
+             "overlap. One fault kind: the handler's write fails with ENOSPC "
+             "for one file of a converting move - every selected data set must "
+             "still be readable somewhere. Histories and schedules are "
+             "sampled.",
         note="Equality notions per handler are stated in the evidence "
-             "assumptions; NetCDF payloads are flat (pseudo groups sharing a "
-             "root dimension fail already in the pinned suite); target "
-             "templates never collide; no faults injected (none in the "
-             "property); periods avoid file boundaries."),
+             "assumptions; NetCDF pseudo groups only one level deep on "
+             "dimensions of their own (groups inheriting a dimension fail "
+             "already in the pinned suite); target templates never collide; "
+             "periods avoid file boundaries."),
     "C01": dict(
         category="exploration", design_ref="DESIGN.md 3/C01",
         technique="deterministic simulation: seeded create/delete/query "
@@ -124,8 +138,11 @@ CLAIMED = {
              "bundles, white/black filters, excluded names and periods) over "
              "tape-drawn templates with 0-4 directory levels; every answer is "
              "compared with the property's predicate evaluated on coverages "
-             "derived by an independent name model. The simulator decides the "
-             "storage/listing/history part; the alignment space is sampled.",
+             "derived by an independent name model. Histories include two "
+             "find() generators consumed alternately, the same filters dict "
+             "passed twice and an invalid regular expression as filter value "
+             "repeated. The simulator decides the storage/listing/history "
+             "part; the alignment space is sampled.",
         note="Files always satisfy the stated preconditions (directory of the "
              "start time, duration <= finest directory period); templates carry "
              "a complete start date; fsspec's glob sorts listings, so listing "
@@ -165,8 +182,10 @@ CLAIMED = {
              "datasets updated in place between calls. The calls run as a "
              "task of the kernel with concurrent.futures routed to simulated "
              "pools and, for Collocator(threads >= 2) on the binned path, "
-             "line-level pre-emption inside pool workers. Histories and "
-             "inputs are sampled.",
+             "line-level pre-emption inside pool workers. One fault kind: the "
+             "k-th tree construction or radius query raises MemoryError - that "
+             "call may fail, later calls on the same Collocator must be exact. "
+             "Histories and inputs are sampled.",
         note="Inputs carry unique dimension labels (the documented contract; "
              "unlabelled dimensions are silently mis-selected by "
              "_prepare_data - recorded as an observation in DESIGN.md); border "
@@ -185,7 +204,11 @@ CLAIMED = {
              "points (duplicates, poles, date line, antipodes), both metrics, "
              "both tree classes, leaf sizes and radius spellings are drawn "
              "from the tape; pairs and distances are compared with the "
-             "harness's own chord / great-circle matrix. Sampled, not "
+             "harness's own chord / great-circle matrix. Allocation failures "
+             "are injected at the tree seam (a failing build is retried, a "
+             "failing query may raise or must be exact), and in a sixth of the "
+             "runs two simulated caller threads share the index with line "
+             "pre-emption inside typhon.geographical. Sampled, not "
              "enumerated.",
         note="Radii lie between distinct distance values (never within 1 mm of "
              "one) and do not exceed half the circumference for haversine; "
@@ -211,7 +234,11 @@ CLAIMED = {
              "and a retry succeeds, a caller editing a returned tile does not "
              "change later answers. Requests run as a kernel task with "
              "concurrent.futures routed to simulated pools; module/class "
-             "state of typhon.topography is reset between runs. Rectangles "
+             "state of typhon.topography is reset between runs; the cache "
+             "directory is preset or resolved by typhon from a simulated "
+             "environment, and in a fifth of the synthetic runs two caller "
+             "threads start on a completely warm cache with line pre-emption "
+             "inside typhon.topography (no download may happen). Rectangles "
              "and histories are sampled.",
         note="Overhangs of exactly one cell +-1e-9 deg are border cases (float "
              "image of an edge on a grid line); faults during extractall are "
